@@ -130,7 +130,8 @@ def mutations(draw):
 
 @st.composite
 def transform_cases(draw):
-    base = draw(st.randoms(use_true_random=False).map(build_base))
+    import random
+    base = draw(st.integers(0, 2 ** 48).map(lambda seed: build_base(random.Random(seed))))   # uniform programs (see c01.strategy)
     return {'kind': 'transform', 'base': base, 'mut': draw(mutations()), 'form': draw(st.sampled_from(['stream', 'stream', 'compiled', 'parsed-native', 'xerces-wrapper']))}
 
 
